@@ -4,8 +4,11 @@ mod c02;
 mod c03;
 mod c04;
 mod c39;
+mod c05h;
+mod c06t;
 mod core;
 mod gen;
+mod hist;
 mod loader;
 mod model;
 mod resolve;
@@ -20,6 +23,8 @@ fn prop_by_id(id: &str) -> Option<Box<dyn Prop>> {
         "C03" => Some(Box::new(c03::C03)),
         "C04" => Some(Box::new(c04::C04)),
         "C39" => Some(Box::new(c39::C39)),
+        "C05" => Some(Box::new(c05h::C05H)),
+        "C06" => Some(Box::new(c06t::C06T)),
         _ => None,
     }
 }
@@ -27,5 +32,5 @@ fn prop_by_id(id: &str) -> Option<Box<dyn Prop>> {
 fn main() {
     // All simulation work happens on a thread with a large stack so that deep
     // (but bounded) recursion in rsass is not mistaken for non-termination.
-    vcommon::driver::run_main(prop_by_id, 1 << 30)
+    vcommon::driver::run_main(prop_by_id, 1 << 30, hist::extra)
 }
